@@ -24,18 +24,22 @@ theorem computeFields_links (a : Arena) (e : Nat) (prev : Option Nat) (op : Op) 
   obtain ⟨h1, h2, h3⟩ := hl i hi o ho
   exact ⟨by rw [computeFields_size]; exact h1, h2, by rw [computeFields_other]; exact h3⟩
 
-/-- the hypotheses under which an arena property survives the sweep -/
-structure SweepStable (P : Arena → Prop) : Prop where
+/-- the hypotheses under which an arena property survives the sweep: `compute_fields` and
+    `possible_intersection` preserve it (nothing else in the loop writes to the arena) -/
+structure SweepStable (ar : Arith) (P : Arena → Prop) : Prop where
   fields : ∀ (a : Arena) (e : Nat) (prev : Option Nat) (op : Op), P a → P (computeFields a e prev op)
-  divide : ∀ (ar : Arith) (cfg : Cfg) (st st' : SwSt) (idx : Nat) (p : Pt),
-      divideSegment ar cfg st idx p = .ok st' → P st.arena → P st'.arena
-  mark : ∀ (a : Arena) (se1 se2 : Nat), P a → P (markCoincident a se1 se2)
+  pi : ∀ (cfg : Cfg) (st st' : SwSt) (se1 se2 r : Nat),
+      possibleIntersection ar cfg st se1 se2 = .ok (r, st') → P st.arena → P st'.arena
 
-theorem SweepStable.pi {P : Arena → Prop} (hs : SweepStable P) (ar : Arith) (cfg : Cfg) (st st' : SwSt)
-    (se1 se2 r : Nat) (h : possibleIntersection ar cfg st se1 se2 = .ok (r, st')) (hP : P st.arena) : P st'.arena :=
-  possibleIntersection_preserves P hs.divide hs.mark ar cfg st st' se1 se2 r h hP
+/-- … which follows when `divide_segment` (at any point) and the edge-type marking preserve it -/
+theorem SweepStable.of_divide (ar : Arith) {P : Arena → Prop}
+    (fields : ∀ (a : Arena) (e : Nat) (prev : Option Nat) (op : Op), P a → P (computeFields a e prev op))
+    (divide : ∀ (ar : Arith) (cfg : Cfg) (st st' : SwSt) (idx : Nat) (p : Pt),
+      divideSegment ar cfg st idx p = .ok st' → P st.arena → P st'.arena)
+    (mark : ∀ (a : Arena) (se1 se2 : Nat), P a → P (markCoincident a se1 se2)) : SweepStable ar P :=
+  ⟨fields, fun cfg st st' se1 se2 r h hP => possibleIntersection_preserves P divide mark ar cfg st st' se1 se2 r h hP⟩
 
-theorem checkNext_preserves {P : Arena → Prop} (hs : SweepStable P) (ar : Arith) (cfg : Cfg) (op : Op)
+theorem checkNext_preserves {P : Arena → Prop} (ar : Arith) (hs : SweepStable ar P) (cfg : Cfg) (op : Op)
     (st st' : SwSt) (event : Nat) (prev next : Option Nat)
     (h : checkNext ar cfg op st event prev next = .ok st') (hP : P st.arena) : P st'.arena := by
   unfold checkNext at h
@@ -45,7 +49,7 @@ theorem checkNext_preserves {P : Arena → Prop} (hs : SweepStable P) (ar : Arit
     simp only at h
     obtain ⟨x, e1, h⟩ := bind_ok _ _ _ h
     obtain ⟨code, st1⟩ := x
-    have x1 : P st1.arena := hs.pi ar cfg st st1 event nx code e1 hP
+    have x1 : P st1.arena := hs.pi cfg st st1 event nx code e1 hP
     simp only at h
     split at h
     · simp only [pure, Except.pure, Except.ok.injEq] at h
@@ -55,7 +59,7 @@ theorem checkNext_preserves {P : Arena → Prop} (hs : SweepStable P) (ar : Arit
     · simp only [pure, Except.pure, Except.ok.injEq] at h
       rw [← h]; exact x1
 
-theorem checkPrev_preserves {P : Arena → Prop} (hs : SweepStable P) (ar : Arith) (cfg : Cfg) (op : Op)
+theorem checkPrev_preserves {P : Arena → Prop} (ar : Arith) (hs : SweepStable ar P) (cfg : Cfg) (op : Op)
     (st st' : SwSt) (event : Nat) (prev : Option Nat)
     (h : checkPrev ar cfg op st event prev = .ok st') (hP : P st.arena) : P st'.arena := by
   unfold checkPrev at h
@@ -65,7 +69,7 @@ theorem checkPrev_preserves {P : Arena → Prop} (hs : SweepStable P) (ar : Arit
     simp only at h
     obtain ⟨x, e1, h⟩ := bind_ok _ _ _ h
     obtain ⟨code, st1⟩ := x
-    have x1 : P st1.arena := hs.pi ar cfg st st1 pv event code e1 hP
+    have x1 : P st1.arena := hs.pi cfg st st1 pv event code e1 hP
     simp only at h
     split at h
     · simp only [pure, Except.pure, Except.ok.injEq] at h
@@ -75,7 +79,7 @@ theorem checkPrev_preserves {P : Arena → Prop} (hs : SweepStable P) (ar : Arit
     · simp only [pure, Except.pure, Except.ok.injEq] at h
       rw [← h]; exact x1
 
-theorem checkRemoval_preserves {P : Arena → Prop} (hs : SweepStable P) (ar : Arith) (cfg : Cfg)
+theorem checkRemoval_preserves {P : Arena → Prop} (ar : Arith) (hs : SweepStable ar P) (cfg : Cfg)
     (st st' : SwSt) (prev next : Option (Nat × Unit))
     (h : checkRemoval ar cfg st prev next = .ok st') (hP : P st.arena) : P st'.arena := by
   unfold checkRemoval at h
@@ -83,11 +87,11 @@ theorem checkRemoval_preserves {P : Arena → Prop} (hs : SweepStable P) (ar : A
   · obtain ⟨x, e1, h⟩ := bind_ok _ _ _ h
     obtain ⟨code, st1⟩ := x
     simp only [pure, Except.pure, Except.ok.injEq] at h
-    rw [← h]; exact hs.pi ar cfg st st1 _ _ code e1 hP
+    rw [← h]; exact hs.pi cfg st st1 _ _ code e1 hP
   · simp only [pure, Except.pure, Except.ok.injEq] at h
     rw [← h]; exact hP
 
-theorem sweepStep_preserves {P : Arena → Prop} (hs : SweepStable P) (ar : Arith) (cfg : Cfg) (op : Op)
+theorem sweepStep_preserves {P : Arena → Prop} (ar : Arith) (hs : SweepStable ar P) (cfg : Cfg) (op : Op)
     (rightbound sbMaxX : Rat) (st st' : SwSt) (event : Nat) (b : Bool)
     (h : sweepStep ar cfg op rightbound sbMaxX st event = .ok (b, st')) (hP : P st.arena) : P st'.arena := by
   unfold sweepStep at h
@@ -100,9 +104,9 @@ theorem sweepStep_preserves {P : Arena → Prop} (hs : SweepStable P) (ar : Arit
       split at h
       · simp [throw, throwThe, MonadExceptOf.throw, bind, Except.bind] at h
       · obtain ⟨st1, e1, h⟩ := bind_ok _ _ _ h
-        have x1 : P st1.arena := checkNext_preserves hs ar cfg op _ st1 event _ _ e1 (hs.fields _ _ _ _ hP)
+        have x1 : P st1.arena := checkNext_preserves ar hs cfg op _ st1 event _ _ e1 (hs.fields _ _ _ _ hP)
         obtain ⟨st2, e2, h⟩ := bind_ok _ _ _ h
-        have x2 : P st2.arena := checkPrev_preserves hs ar cfg op st1 st2 event _ e2 x1
+        have x2 : P st2.arena := checkPrev_preserves ar hs cfg op st1 st2 event _ e2 x1
         simp only [pure, Except.pure, Except.ok.injEq, Prod.mk.injEq] at h
         rw [← h.2]; exact x2
     · -- a right event: removal
@@ -118,7 +122,7 @@ theorem sweepStep_preserves {P : Arena → Prop} (hs : SweepStable P) (ar : Arit
             · simp only [pure, Except.pure, Except.ok.injEq, Prod.mk.injEq] at h
               rw [← h.2]; exact hP
             · obtain ⟨st1, e1, h⟩ := bind_ok _ _ _ h
-              have x1 : P st1.arena := checkRemoval_preserves hs ar cfg _ st1 _ _ e1 hP
+              have x1 : P st1.arena := checkRemoval_preserves ar hs cfg _ st1 _ _ e1 hP
               simp only [pure, Except.pure, Except.ok.injEq, Prod.mk.injEq] at h
               rw [← h.2]; exact x1
         · have hd' : cfg.dbg = false := by simpa using hd
@@ -127,11 +131,11 @@ theorem sweepStep_preserves {P : Arena → Prop} (hs : SweepStable P) (ar : Arit
           · simp only [pure, Except.pure, Except.ok.injEq, Prod.mk.injEq] at h
             rw [← h.2]; exact hP
           · obtain ⟨st1, e1, h⟩ := bind_ok _ _ _ h
-            have x1 : P st1.arena := checkRemoval_preserves hs ar cfg _ st1 _ _ e1 hP
+            have x1 : P st1.arena := checkRemoval_preserves ar hs cfg _ st1 _ _ e1 hP
             simp only [pure, Except.pure, Except.ok.injEq, Prod.mk.injEq] at h
             rw [← h.2]; exact x1
 
-theorem sweepLoop_preserves {P : Arena → Prop} (hs : SweepStable P) (ar : Arith) (cfg : Cfg) (op : Op)
+theorem sweepLoop_preserves {P : Arena → Prop} (ar : Arith) (hs : SweepStable ar P) (cfg : Cfg) (op : Op)
     (rightbound sbMaxX : Rat) :
     ∀ (fuel : Nat) (st st' : SwSt), sweepLoop ar cfg op rightbound sbMaxX fuel st = .ok st' → P st.arena → P st'.arena := by
   intro fuel
@@ -150,12 +154,12 @@ theorem sweepLoop_preserves {P : Arena → Prop} (hs : SweepStable P) (ar : Arit
         · rename_i st1 hstep
           simp only [Except.ok.injEq] at h
           rw [← h]
-          exact sweepStep_preserves hs ar cfg op rightbound sbMaxX _ st1 _ true hstep hP
+          exact sweepStep_preserves ar hs cfg op rightbound sbMaxX _ st1 _ true hstep hP
         · rename_i st1 hstep
-          exact ih st1 st' h (sweepStep_preserves hs ar cfg op rightbound sbMaxX _ st1 _ false hstep hP)
+          exact ih st1 st' h (sweepStep_preserves ar hs cfg op rightbound sbMaxX _ st1 _ false hstep hP)
 
 /-- a sweep-stable property of the queue's arena holds for the arena `subdivide` returns -/
-theorem subdivide_preserves {P : Arena → Prop} (hs : SweepStable P) (ar : Arith) (cfg : Cfg) (fq : FQ) (sb cb : BBox)
+theorem subdivide_preserves {P : Arena → Prop} (ar : Arith) (hs : SweepStable ar P) (cfg : Cfg) (fq : FQ) (sb cb : BBox)
     (op : Op) (sw : SweepOut) (h : subdivide ar cfg fq sb cb op = .ok sw) (hP : P fq.arena) : P sw.arena := by
   unfold subdivide at h
   simp only at h
@@ -164,11 +168,11 @@ theorem subdivide_preserves {P : Arena → Prop} (hs : SweepStable P) (ar : Arit
   · rename_i st hl
     simp only [Except.ok.injEq] at h
     rw [← h]
-    exact sweepLoop_preserves hs ar cfg op _ _ _ _ st hl hP
+    exact sweepLoop_preserves ar hs cfg op _ _ _ _ st hl hP
 
-theorem mutualLinks_stable : SweepStable MutualLinks :=
-  ⟨fun a e prev op h => computeFields_links a e prev op h,
-   fun ar cfg st st' idx p h hl => divideSegment_links ar cfg st st' idx p h hl,
-   fun a se1 se2 hl => markCoincident_links a se1 se2 hl⟩
+theorem mutualLinks_stable (ar : Arith) : SweepStable ar MutualLinks :=
+  SweepStable.of_divide ar (fun a e prev op h => computeFields_links a e prev op h)
+   (fun ar cfg st st' idx p h hl => divideSegment_links ar cfg st st' idx p h hl)
+   (fun a se1 se2 hl => markCoincident_links a se1 se2 hl)
 
 end Gbo
